@@ -35,6 +35,46 @@ What is compared (the reading of "coincide"):
   figures are those of the independent model on the children map the object has at that moment
   (ct.children_of + ref.check_tree_struct + ref.children_to_ssa).  A step counts as "changed"
   only if the set of internal nodes differs (an ssa path can differ by child order alone).
+
+Widening (round 4) - every route that REPORTS a compressed estimate must tell the story of
+``compressed_contract_stats`` for the same (chi, order, compress_late), hence the exact figures of the
+independent model when chi >= every bond and never more than the uncapped values:
+
+* reporting methods ("api" cases): total_flops_compressed / contraction_cost_compressed /
+  total_write_compressed / max_size_compressed / peak_size_compressed / contraction_width_compressed /
+  combo_cost_compressed / total_cost_compressed on both tree classes, and on ContractionTreeCompressed the
+  aliases total_flops / contraction_cost / total_write / max_size / peak_size / contraction_width /
+  combo_cost / total_cost; arguments by keyword, positionally, or LEFT OUT.  What a left-out argument
+  means is taken from the documentation: chi -> the chi of the default objective the tree was given
+  (constructor ``objective=`` / ``set_default_objective``), else (largest dimension)**2 of this network;
+  compress_late -> that objective's (False when it has none); order -> 'surface_order'; factor -> that
+  objective's, else 64; log=b -> log_b of the figure, contraction_width -> log2.  combo = flops +
+  factor * write.  Each value is compared (i) with the figure of compressed_contract_stats called with
+  everything explicit, (ii) when chi >= the largest bond of that (order, compress_late) with the exact
+  figure of ref.Costs, (iii) for write / max_size / peak_size / width with the chi = 10**30 value (<=).
+* objectives: '<flops|write|size|max|peak|combo>-compressed' with and without '-<chi>', made from the string
+  (get_score_fn), from the class (chi, compress_late, secondary_weight / factor) or as a copy of the shared
+  string objective with compress_late switched on.  ``objective({"tree": tree})`` must leave
+  trial["flops"] / ["write"] equal to the stats of its (chi, 'surface_order', compress_late), trial["size"]
+  equal to max_size (size / max / flops / combo), peak_size (peak), any of write / max_size / peak_size
+  (write: the weakest reading), the exact figures when nothing is truncated, and ``tree.get_score(obj)``
+  must return the same number.  No score formula is assumed.
+* trackers: ``get_compressed_stats_tracker`` as the path optimisers use it - WindowedOptimizer(inputs, output,
+  size_dict, minimize, ssa_path).tracker for the path of a ContractionTreeCompressed must show the max_size /
+  peak_size / write of compressed_contract_stats(chi, 'surface_order', compress_late) (flops too, and the
+  exact figures, when nothing is truncated); describe() must print log2 of those sizes as S / P (and log10 of
+  the exact flops / combo as F / C when nothing is truncated) to its two decimals; with the secondary weight
+  set to 0 (and for combo) ``score`` must be a strictly increasing function of the objective's own figure over
+  the same path at chi in {10**30, 1, 2, 4, 16, own}; after refine(...) / simulated_anneal(...) with a
+  chi = 10**30 objective the tracker must equal the exact figures of the path the optimiser then holds
+  (get_ssa_path; peak against compressed_contract_stats of that path).
+* finders: HyperCompressedOptimizer with reconf_opts (CompressedReconfTrial -> windowed_reconfigure_) and with
+  the cap given as ``chi=`` or inside the objective: complete ordered tree, and opt.best's flops / write /
+  size are the figures of the tree that is returned; histories whose steps are compressed_reconfigure /
+  compressed_reconfigure_ (objective with explicit chi, order_only, max_nodes 5 / 50 / 300 / 'auto' or
+  max_time 0.25 s, exploration_power 0 / 0.5 / 2, in place or copy), possibly mixed with subtree_reconfigure steps: the
+  search must return a complete ordered tree, and the full sweep is repeated on it (and on the source of a
+  copy); a tree that carries a default objective with a numeric chi must use THAT chi as its default cap.
 """
 
 import traceback
@@ -57,7 +97,15 @@ RULE = (
     "maxiter 1-2, select min/random/max, search bfs/dfs/random, minimize flops/size/write/combo) on the same "
     "ContractionTree / ContractionTreeCompressed object with the sweep repeated on the modified tree and on the "
     "source of every copy.  distinct = distinct (network, tree, tree class, order, compress_late); "
-    "non-trivial = >= 4 tensors and at least one bond made of >= 2 indices arises in that run"
+    "non-trivial = >= 4 tensors and at least one bond made of >= 2 indices arises in that run.  Widening: 'api' cases = "
+    "same networks / trees x tree default objective (none, exact 'flops'/'size'/'combo[-f]', any compressed objective; via "
+    "constructor or set_default_objective) x 2-4 argument combinations (chi in {left out, boundary, 10^30, 1, 2, 4, 16} x order "
+    "in {left out, dfs, surface_order, rand} x compress_late in {left out, F, T} x log in {none, 2, 10} x factor in {left out, "
+    "0, 1, 64, 256.0} x positional / keyword x dtype=None) over the 8 *_compressed methods and the 8 ContractionTreeCompressed "
+    "aliases x 2 objectives (6 names x chi in {none, 1, 2, 4, 16, 64, 10^30} x compress_late x string / class / copy) x one "
+    "WindowedOptimizer tracker (figures, describe, score order, refine / simulated_anneal at 10^30); 'finder2' cases = "
+    "HyperCompressedOptimizer(reconf_opts=..., chi= / objective) and histories with compressed_reconfigure(_) steps "
+    "(distinct api case = network, tree, class, tree objective, combinations)"
 )
 ASSUMPTIONS = [
     "pure-python HyperGraph (no rust accelerator is importable in this environment)",
@@ -72,6 +120,16 @@ ASSUMPTIONS = [
     "output index.  An index summed inside a single tensor is pre-processed away by the exact tree (not counted) "
     "but stays on the leaf in the compressed simulation, so flops differ by construction there ('ag,a->' with a=2, g=3: "
     "exact flops 2, compressed 6 at any chi); such networks are not generated",
+    "widening: a left-out chi / compress_late / factor means what the documentation says (the default objective's value, "
+    "else (largest dimension)**2 / False / 64); the default objective is installed through the documented API with an "
+    "Objective instance or set_default_objective; plain ContractionTree objects are always given chi and compress_late "
+    "(the base class defines no defaults for them: FINDINGS_widen-b.md O3)",
+    "widening: flops at a truncating chi (the QR estimate) is outside the statement: it is compared between routes only "
+    "where both go through compressed_contract_stats, never between the path optimisers' tracker and the tree (O2)",
+    "widening: trial['size'] of the write objective may be write, max_size or peak_size; no score formula is assumed, only "
+    "that a score with the secondary weight 0 orders by the objective's own figure",
+    "widening: an exception inside WindowedOptimizer.refine / simulated_anneal called directly is tallied under 'excluded' "
+    "(whether the optimisers return is the finder monitor's business through windowed_reconfigure / simulated_anneal)",
 ]
 REQUIRED_MONITORS = [
     "uncapped_flops_exact",
@@ -83,6 +141,24 @@ REQUIRED_MONITORS = [
     "compressed_finder_tree",
     "history_rechecks",
     "history_tree_changed",
+    # widening (round 4)
+    "estimate_methods_vs_stats",
+    "estimate_methods_exact",
+    "estimate_methods_monotone",
+    "alias_default_chi",
+    "alias_default_late",
+    "default_late_from_objective",
+    "objective_trial_figures",
+    "objective_trial_exact",
+    "tracker_vs_stats",
+    "tracker_exact",
+    "tracker_describe",
+    "tracker_score_order",
+    "refined_tracker_exact",
+    "hyper_trial_figures",
+    "hyper_reconf_tree",
+    "compressed_reconfigure_tree",
+    "compressed_reconfigure_estimates",
 ]
 SHARD_TIMEOUT = {"quick": 400, "thorough": 3600}
 
@@ -386,8 +462,10 @@ def stats_case(rep, case, register=True, tree=None):
             # dimension of THIS network; scoring the tree first goes through the default objective, which is
             # a process-wide shared object (get_score_fn is memoised) - what an earlier network did to it
             # must not show in this network's estimates
-            if type(tree).__name__ == "ContractionTreeCompressed":
-                dflt = max(pristine.size_dict.values()) ** 2
+            # (a live tree that carries its own default objective - only the widened histories make such
+            # trees - announces the cap that objective implies in case["default_chi"], or "skip")
+            if type(tree).__name__ == "ContractionTreeCompressed" and case.get("default_chi") != "skip":
+                dflt = case.get("default_chi") or max(pristine.size_dict.values()) ** 2
                 try:
                     tree.get_score()
                     sd_ = tree.compressed_contract_stats(order=make_order(okind, oseed), compress_late=cl)
@@ -702,6 +780,36 @@ def present_ssa(tree, N):
     return [tuple(p) for p in ref.children_to_ssa(N, children)], {p: frozenset(lr) for p, lr in children.items()}
 
 
+def _hdet(stage, ssa_now):
+    return {"order": None, "compress_late": None, "chi": None, "field": "tree", "got": None, "want": None,
+            "stage": stage, "on": "search result", "ssa_at_stage": [list(p) for p in ssa_now]}
+
+
+def carried_default_chi(tree):
+    """the default cap implied by the default objective the tree SAYS it carries: its chi when that is a
+    number, None (= the class default, (largest dimension)**2) when it has none, "skip" when the objective is
+    a bare string (what the defaults make of one is outside the statement: FINDINGS_widen-b.md O1)"""
+    try:
+        obj = tree.get_default_objective()
+    except Exception:
+        return "skip"
+    if isinstance(obj, str):
+        return "skip"
+    chi = getattr(obj, "chi", "auto")
+    return None if chi == "auto" else chi
+
+
+def run_compressed_reconfigure(tree, st):
+    """one ``compressed_reconfigure`` step of a history (st: JSON-able settings)"""
+    kw = dict(minimize=make_objective(st["objective"]), order_only=st["order_only"], max_nodes=st["max_nodes"],
+              exploration_power=st["exploration_power"])
+    if st.get("max_time"):
+        kw["max_time"] = st["max_time"]  # with max_nodes='auto': search until the time is up
+    if st["inplace"] and st.get("partial"):
+        return tree.compressed_reconfigure_(**kw)  # the functools.partialmethod spelling
+    return tree.compressed_reconfigure(inplace=st["inplace"], **kw)
+
+
 def history_case(rep, case, register=True):
     """-> list of (kind, detail, message); detail carries "stage" (0 = before any change) and "on"."""
     net = gen.Net.from_json(case["net"])
@@ -717,10 +825,12 @@ def history_case(rep, case, register=True):
         rep.inconclusive_case(f"could not build the tree: {e!r}")
         return out
 
-    def sweep(t, ssa_now, orders, stage, on, reg):
+    def sweep(t, ssa_now, orders, stage, on, reg, dchi=None):
         sub = {k: case[k] for k in ("net", "cls", "order_seed", "source")}
         sub["ssa"] = ssa_now
         sub["orders"] = tuple(orders)
+        if dchi is not None:
+            sub["default_chi"] = dchi
         n0 = rep.monitors["uncapped_flops_exact"]
         for kind, det, msg in stats_case(rep, sub, register=reg, tree=t):
             det = dict(det, stage=stage, on=on, ssa_at_stage=[list(p) for p in ssa_now])
@@ -734,30 +844,56 @@ def history_case(rep, case, register=True):
     if not sweep(tree, ssa0, case["first_orders"], 0, "fresh", register):
         return out
     cur, cur_ssa, cur_nodes = tree, ssa0, nodes0
+    cur_dchi = None  # the default cap implied by the default objective the live object carries (None: class default)
     for j, st in enumerate(case["steps"], 1):
+        op = st.get("op", "subtree_reconfigure")
+        new_dchi = cur_dchi
         try:
             with time_limit(OP_LIMIT):
-                new = cur.subtree_reconfigure(
-                    subtree_size=st["subtree_size"], subtree_search=st["subtree_search"], select=st["select"],
-                    maxiter=st["maxiter"], seed=st["seed"], minimize=st["minimize"], inplace=st["inplace"],
-                )
+                if op == "compressed_reconfigure":
+                    new = run_compressed_reconfigure(cur, st)
+                    new_dchi = carried_default_chi(new)
+                else:
+                    new = cur.subtree_reconfigure(
+                        subtree_size=st["subtree_size"], subtree_search=st["subtree_search"], select=st["select"],
+                        maxiter=st["maxiter"], seed=st["seed"], minimize=st["minimize"], inplace=st["inplace"],
+                    )
         except OpTimeout as e:
             rep.inconclusive_case(f"history step {j}: {e}")
             break
         except Exception as e:
-            rep.count("excluded", f"history: subtree_reconfigure raised {type(e).__name__}")
+            if op == "compressed_reconfigure":
+                # a compressed pathfinder: the statement promises a tree
+                rep.mon("compressed_reconfigure_tree")
+                out.append(("finder_raises", _hdet(j, cur_ssa),
+                            f"[history: stage {j}] compressed_reconfigure({st}) raised {type(e).__name__}: {e} | {traceback.format_exc()[-600:]}"))
+            else:
+                rep.count("excluded", f"history: subtree_reconfigure raised {type(e).__name__}")
             break
         if st["inplace"] and new is not cur:
-            rep.inconclusive_case("subtree_reconfigure_(inplace) returned another object: C04's domain")
+            rep.inconclusive_case(f"{op}(inplace) returned another object: C04's domain")
             break
         new_ssa, new_nodes = present_ssa(new, N)
-        if new_ssa is None:
+        if op == "compressed_reconfigure":
+            rep.mon("compressed_reconfigure_tree")
+            rep.count("compressed_reconfigure", f"{type(new).__name__}:{'inplace' if st['inplace'] else 'copy'}:"
+                                                f"{'order_only' if st['order_only'] else 'free'}"
+                                                f"{':timed' if st.get('max_time') else ''}")
+            res = ("finder_incomplete", new_nodes) if new_ssa is None else check_finder_tree(pristine, new)
+            if res:
+                out.append((res[0], _hdet(j, cur_ssa), f"[history: stage {j}] compressed_reconfigure({st}): {res[1]}"))
+                break
+        elif new_ssa is None:
             rep.inconclusive_case(f"tree after subtree_reconfigure is not a complete tree ({new_nodes}): C04's domain")
             break
         changed = set(new_nodes) != set(cur_nodes)
         rep.count("history_steps", f"{'inplace' if st['inplace'] else 'copy'}:{'changed' if changed else 'same'}")
-        if not sweep(new, new_ssa, case["orders"], j, "modified in place" if st["inplace"] else "modified copy", register):
+        if not sweep(new, new_ssa, case["orders"], j, "modified in place" if st["inplace"] else "modified copy", register, new_dchi):
             break
+        if op == "compressed_reconfigure":
+            rep.mon("compressed_reconfigure_estimates")  # the whole sweep ran on the tree the search returned
+            if changed:
+                rep.mon("compressed_reconfigure_changed")
         rep.mon("history_rechecks")
         if changed:
             rep.mon("history_tree_changed")
@@ -769,10 +905,10 @@ def history_case(rep, case, register=True):
             if src_ssa is None or src_nodes != cur_nodes:
                 rep.inconclusive_case("non-inplace subtree_reconfigure changed its source: C04's domain")
                 break
-            if sweep(cur, cur_ssa, case["orders"], j, "source of the copy", False):
+            if sweep(cur, cur_ssa, case["orders"], j, "source of the copy", False, cur_dchi):
                 rep.mon("history_rechecks")
                 rep.mon("history_rechecks_of_copy_source")
-        cur, cur_ssa, cur_nodes = new, new_ssa, new_nodes
+        cur, cur_ssa, cur_nodes, cur_dchi = new, new_ssa, new_nodes, new_dchi
     return out
 
 
@@ -794,6 +930,758 @@ def run_history_case(rep, case):
     return not res
 
 
+# --------------------------------------------------------------------------- #
+#   widening (round 4): every route that REPORTS a compressed-contraction      #
+#   estimate, the objectives / trackers, and the remaining compressed finders  #
+# --------------------------------------------------------------------------- #
+#
+# Routes (all must tell the same story as compressed_contract_stats(chi, order, compress_late),
+# and therefore the exact figures of the independent model when chi >= every bond):
+#   1. ContractionTree.total_flops_compressed / contraction_cost_compressed / total_write_compressed /
+#      max_size_compressed / peak_size_compressed / contraction_width_compressed / combo_cost_compressed /
+#      total_cost_compressed with chi / order / compress_late / log / factor / dtype=None, by keyword and
+#      positionally; on ContractionTreeCompressed also the aliases total_flops / contraction_cost /
+#      total_write / max_size / peak_size / contraction_width / combo_cost / total_cost, with arguments
+#      LEFT OUT: chi -> the chi of the tree's default objective, else (largest dimension)**2;
+#      compress_late -> that objective's; order -> 'surface_order'; factor -> that objective's, else 64.
+#   2. the objectives '<flops|write|size|max|peak|combo>-compressed[-<chi>]' (string -> get_score_fn,
+#      class constructor, copy with compress_late switched on): the flops / write / size they write into a
+#      trial, called directly and through tree.get_score.
+#   3. the trackers CompressedObjective.get_compressed_stats_tracker hands to the path optimisers, observed
+#      on pathfinders.path_compressed.WindowedOptimizer(...).tracker: figures, describe(), score - before
+#      and (uncapped only) after refine / simulated_anneal.
+#   4. HyperCompressedOptimizer(reconf_opts=...) -> CompressedReconfTrial: the winning trial's figures are
+#      those of the tree it returns.
+#   5. tree.compressed_reconfigure / compressed_reconfigure_ as a step of a history.
+
+DEFAULT_FACTOR = 64  # cotengra.scoring.DEFAULT_COMBO_FACTOR (documented default of every combo cost)
+
+OBJ_CLASS = {
+    "size-compressed": "CompressedSizeObjective", "max-compressed": "CompressedSizeObjective",
+    "peak-compressed": "CompressedPeakObjective", "write-compressed": "CompressedWriteObjective",
+    "flops-compressed": "CompressedFlopsObjective", "combo-compressed": "CompressedComboObjective",
+}
+# which figure an objective is about (what its score must order by)
+PRINCIPAL = {
+    "size-compressed": "max_size", "max-compressed": "max_size", "peak-compressed": "peak_size",
+    "write-compressed": "write", "flops-compressed": "flops", "combo-compressed": "combo",
+}
+# what trial["size"] may hold: the class docstrings promise "the maximum size intermediate" (size / max), "the
+# peak total concurrent size" (peak); the write objective stores its own figure there (weakest reading: any of the
+# three size-like estimates is accepted for it)
+SIZE_FIELD = {
+    "size-compressed": ("max_size",), "max-compressed": ("max_size",), "flops-compressed": ("max_size",),
+    "combo-compressed": ("max_size",), "peak-compressed": ("peak_size",),
+    "write-compressed": ("write", "max_size", "peak_size"),
+}
+EST_METHODS = (
+    ("total_flops_compressed", "flops"), ("contraction_cost_compressed", "flops"),
+    ("total_write_compressed", "write"), ("max_size_compressed", "max_size"),
+    ("peak_size_compressed", "peak_size"), ("contraction_width_compressed", "width"),
+    ("combo_cost_compressed", "combo"), ("total_cost_compressed", "combo"),
+)
+EST_ALIASES = (
+    ("total_flops", "flops"), ("contraction_cost", "flops"), ("total_write", "write"), ("max_size", "max_size"),
+    ("peak_size", "peak_size"), ("contraction_width", "width"), ("combo_cost", "combo"), ("total_cost", "combo"),
+)
+
+
+def gen_objective_spec(rng, explicit_chi=False):
+    """JSON-able description of one compressed objective"""
+    name = rng.choice(MINIMIZE)
+    chi = rng.choice([None, None, 1, 2, 4, 16, 64, HUGE])
+    if explicit_chi and chi is None:
+        chi = rng.choice([1, 2, 4, 16, 64, HUGE])
+    late = rng.random() < 0.4
+    if late:
+        how = rng.choice(["instance", "copy"])
+    else:
+        how = rng.choice(["string", "string", "instance"])
+    spec = {"name": name, "chi": chi, "late": late, "how": how, "sw0": False, "factor": None}
+    if how == "instance":
+        if name == "combo-compressed":
+            spec["factor"] = rng.choice([None, 0, 1, 16, 256])
+        else:
+            spec["sw0"] = rng.random() < 0.5
+    return spec
+
+
+def make_objective(spec):
+    """spec -> what is handed to cotengra (a string, or an Objective instance)"""
+    if spec is None:
+        return None
+    if spec.get("exact"):
+        return spec["name"]
+    s = spec["name"] + (f"-{spec['chi']}" if spec["chi"] is not None else "")
+    if spec["how"] == "string":
+        return s
+    from cotengra import scoring
+
+    if spec["how"] == "copy":
+        import copy
+
+        obj = copy.copy(scoring.get_score_fn(s))
+        obj.compress_late = bool(spec["late"])
+        return obj
+    kw = {"chi": "auto" if spec["chi"] is None else spec["chi"], "compress_late": bool(spec["late"])}
+    if spec.get("sw0"):
+        kw["secondary_weight"] = 0.0
+    if spec.get("factor") is not None:
+        kw["factor"] = spec["factor"]
+    return getattr(scoring, OBJ_CLASS[spec["name"]])(**kw)
+
+
+def spec_expect(spec, pristine):
+    """-> (chi, compress_late, factor) the documented behaviour of an objective implies for this network"""
+    auto = max(pristine.size_dict.values()) ** 2
+    if spec is None:
+        return auto, False, DEFAULT_FACTOR
+    if spec.get("exact"):
+        return auto, False, spec.get("factor") or DEFAULT_FACTOR
+    factor = DEFAULT_FACTOR
+    if spec["name"] == "combo-compressed" and spec.get("factor") is not None:
+        factor = spec["factor"]
+    return (auto if spec["chi"] is None else spec["chi"]), bool(spec["late"]), factor
+
+
+def exact_figures(pristine, ssa):
+    """-> (children, want, input sizes): the independent model's figures in the tracker's conventions"""
+    children = ref.ssa_to_children(pristine.N, ssa)
+    cs = ref.Costs(pristine.inputs, pristine.output, pristine.size_dict, children)
+    insz = [prod_sizes(pristine.size_dict, t) for t in pristine.inputs]
+    want = {
+        "flops": cs.total_flops(),
+        "max_size": max(max(insz), cs.max_size()) if pristine.N > 1 else max(insz),
+        "write": cs.total_write() + sum(insz),
+    }
+    return children, want, insz
+
+
+def figs_of(st):
+    return {"flops": st.flops, "max_size": st.max_size, "write": st.write, "peak_size": st.peak_size}
+
+
+def close(a, b, rel=1e-9):
+    if isinstance(a, int) and isinstance(b, int) and not isinstance(a, bool):
+        return a == b
+    try:
+        return abs(a - b) <= rel * max(1.0, abs(a), abs(b))
+    except Exception:
+        return False
+
+
+def figure_value(figs, which, factor, base):
+    """the value a reporting method must return for the figures ``figs``"""
+    import math
+
+    if which == "combo":
+        v = figs["flops"] + factor * figs["write"]
+    elif which == "width":
+        v = figs["max_size"]
+    else:
+        v = figs[which]
+    return math.log(v, base) if base is not None else v
+
+
+def gen_api_case(rng, cs, tier):
+    case = gen_stats_case(rng, cs, tier)
+    case["what"] = "api"
+    case["source"] = "api:" + case["source"]
+    compressed = case["cls"] == "compressed"
+    # the default objective the tree carries
+    r = rng.random()
+    if r < 0.25:
+        tobj = None
+    elif r < 0.37:
+        nm, f = rng.choice([("flops", None), ("size", None), ("combo-32", 32), ("combo", None), ("combo-2", 2)])
+        tobj = {"exact": True, "name": nm, "factor": f}
+    else:
+        tobj = gen_objective_spec(rng)
+    case["tree_objective"] = tobj
+    # PENDING-FINDING (FINDINGS_widen-b.md, observation O1): a STRING handed to the constructor
+    # (from_path(..., objective='peak-compressed-2')) is stored as is and silently ignored by
+    # get_default_chi / get_default_compress_late / get_default_combo_factor; outside the statement of C20, so
+    # the constructor route is driven with Objective instances only ("ctor" = get_score_fn(...) first)
+    case["objective_via"] = rng.choice(["ctor", "setter"])
+    combos = []
+    for _ in range(rng.randint(2, 4)):
+        combos.append({
+            "chi": rng.choice([None, None, "boundary", HUGE, 1, 2, 4, 16] if compressed else ["boundary", HUGE, 1, 2, 4, 16]),
+            "order": rng.choice([None, None, "dfs", "surface_order", "rand"]),
+            "late": rng.choice([None, None, False, True] if compressed else [False, True]),
+            "log": rng.choice([None, None, 2, 10]),
+            "factor": rng.choice([None, None, 0, 1, 64, 256.0]),
+            "positional": rng.random() < 0.25,
+            "dtype_kw": rng.random() < 0.3,
+        })
+    case["combos"] = combos
+    case["objectives"] = [gen_objective_spec(rng) for _ in range(2)]
+    tspec = gen_objective_spec(rng)
+    tspec["how"] = "instance"
+    if tspec["name"] != "combo-compressed":
+        tspec["sw0"] = rng.random() < 0.6
+    refine = None
+    if rng.random() < 0.7:
+        if rng.random() < 0.55:
+            refine = {"kind": "refine", "window_size": rng.randint(2, 8), "max_iterations": rng.randint(1, 4),
+                      "order_only": rng.random() < 0.4, "max_window_tries": rng.choice([5, 50, 300]),
+                      "score_temperature": rng.choice([0.0, 0.01, 0.5]), "seed": rng.randrange(10**6)}
+        else:
+            refine = {"kind": "anneal", "tsteps": rng.randint(1, 3), "numiter": rng.randint(1, 3),
+                      "select": rng.choice(["descend", "ascend", "random", "bounce"]), "seed": rng.randrange(10**6)}
+    case["tracker"] = {"spec": tspec, "refine": refine}
+    return case
+
+
+def build_api_tree(net, case):
+    ssa = [tuple(s) for s in case["ssa"]]
+    tobj = case.get("tree_objective")
+    obj = make_objective(tobj)
+    kw = {}
+    if obj is not None and case.get("objective_via") == "ctor":
+        from cotengra.scoring import get_score_fn
+
+        kw["objective"] = get_score_fn(obj)
+    if case["cls"] == "compressed":
+        from cotengra.core import ContractionTreeCompressed
+
+        tree = ContractionTreeCompressed.from_path(net.inputs, net.output, dict(net.size_dict), ssa_path=ssa, **kw)
+    else:
+        tree = ct.make_tree(gen.Net(net.inputs, net.output, dict(net.size_dict)), ssa, **kw)
+    if obj is not None and case.get("objective_via") != "ctor":
+        tree.set_default_objective(obj)
+    return tree
+
+
+def api_case(rep, case, register=True):
+    """-> list of (kind, detail, message)"""
+    net = gen.Net.from_json(case["net"])
+    pristine = gen.Net.from_json(case["net"])
+    ssa = [tuple(s) for s in case["ssa"]]
+    N = pristine.N
+    out = []
+    if lonely_indices(pristine) or pristine.has_repeat():
+        rep.count("skipped", "not ordinary")
+        return out
+    children, want, insz = exact_figures(pristine, ssa)
+    nonout = [pristine.size_dict[ix] for t in pristine.inputs for ix in t if ix not in pristine.output]
+    max_index = max(nonout) if nonout else 1
+    compressed = case["cls"] == "compressed"
+    oseed = case["order_seed"]
+    try:
+        tree = build_api_tree(net, case)
+        ex = tree.contract_stats()
+    except Exception as e:
+        rep.inconclusive_case(f"api: could not build the tree: {e!r}")
+        return out
+    if ex["flops"] != want["flops"] or ex["write"] + sum(insz) != want["write"]:
+        rep.inconclusive_case(f"api: tree.contract_stats() {ex} disagrees with the reference cost model: C03's domain")
+        return out
+    t_chi, t_late, t_factor = spec_expect(case.get("tree_objective"), pristine)
+
+    bounds = {}
+
+    def boundary_of(okind, late):
+        k = (okind, late)
+        if k not in bounds:
+            trav = ct.traversal(tree, make_order(okind, oseed))
+            msg = valid_order(N, children, trav)
+            if msg:
+                bounds[k] = None
+            else:
+                bm = bond_model(pristine, trav, late)
+                bounds[k] = (max(bm["max_any"], max_index), bm["n_multi"])
+        return bounds[k]
+
+    def stats(chi, okind, late):
+        return figs_of(tree.compressed_contract_stats(chi=chi, order=make_order(okind, oseed), compress_late=late))
+
+    def fail(kind, part, detail, msg):
+        d = {"part": part, "order": {"kind": detail.get("okind"), "seed": oseed}, "compress_late": detail.get("late"),
+             "chi": detail.get("chi"), "field": detail.get("field"), "got": detail.get("got"), "want": detail.get("want")}
+        out.append((kind, d, msg))
+
+    # ---- 1. the reporting methods --------------------------------------------------------------
+    n_multi_any = 0
+    for ci, combo in enumerate(case.get("combos", ())):
+        okind = combo["order"] or "surface_order"
+        late = t_late if combo["late"] is None else combo["late"]
+        try:
+            b = boundary_of(okind, late)
+        except Exception as e:
+            rep.inconclusive_case(f"api: traverse({okind}) raised {e!r}")
+            continue
+        if b is None:
+            rep.inconclusive_case(f"api: traverse({okind}) is not a valid order: C07's domain")
+            continue
+        boundary, n_multi = b
+        n_multi_any += n_multi
+        if combo["chi"] is None:
+            chi = t_chi
+        elif combo["chi"] == "boundary":
+            chi = boundary
+        else:
+            chi = combo["chi"]
+        try:
+            figs = stats(chi, okind, late)
+            figs_u = figs if chi == HUGE else stats(HUGE, okind, late)
+        except Exception as e:
+            fail("stats_raises", "methods", {"okind": okind, "late": late, "chi": chi, "field": "raises", "got": repr(e)},
+                 f"compressed_contract_stats raised {type(e).__name__}: {e}")
+            continue
+        exact = dict(want, peak_size=None) if chi >= boundary else None
+        methods = EST_METHODS + (EST_ALIASES if compressed else ())
+        for name, which in methods:
+            kw = {}
+            if combo["chi"] is not None:
+                kw["chi"] = chi
+            if combo["order"] is not None:
+                kw["order"] = make_order(okind, oseed)
+            if combo["late"] is not None:
+                kw["compress_late"] = late
+            args = ()
+            if combo["positional"] and len(kw) == 3:
+                args = (kw.pop("chi"), kw.pop("order"), kw.pop("compress_late"))
+            base = combo["log"]
+            if base is not None:
+                kw["log"] = base
+            elif which == "width":
+                base = 2  # documented default: log2 of the largest tensor
+            factor = t_factor
+            if which == "combo" and combo["factor"] is not None:
+                kw["factor"] = factor = combo["factor"]
+            if which == "flops" and combo["dtype_kw"]:
+                kw["dtype"] = None
+            det = {"okind": okind, "late": late, "chi": chi, "field": f"{name}#{ci}"}
+            try:
+                got = getattr(tree, name)(*args, **kw)
+            except Exception as e:
+                fail("estimate_method_raises", "methods", dict(det, got=repr(e)),
+                     f"tree.{name}({', '.join(map(str, args))}{', ' if args else ''}{kw}) raised {type(e).__name__}: {e}")
+                continue
+            called = f"tree.{name}(args={args!r}, {kw})" if args else f"tree.{name}({kw})"
+            rep.mon("estimate_methods_vs_stats")
+            rep.count("estimate_method", name)
+            if combo["chi"] is None:
+                rep.mon("alias_default_chi")
+            if combo["late"] is None:
+                rep.mon("alias_default_late")
+                if t_late:
+                    rep.mon("default_late_from_objective")
+            w_ = figure_value(figs, which, factor, base)
+            if not close(got, w_):
+                fail("estimate_method_vs_stats", "methods", dict(det, got=got, want=w_),
+                     f"{called} = {got} but compressed_contract_stats(chi={chi}, order={okind}, compress_late={late}) "
+                     f"gives {figs} -> {w_} (tree default objective: {case.get('tree_objective')})")
+                continue
+            if exact is not None and which != "peak_size":
+                rep.mon("estimate_methods_exact")
+                w_ = figure_value(exact, which, factor, base)
+                if not close(got, w_):
+                    fail("estimate_method_exact", "methods", dict(det, got=got, want=w_),
+                         f"{called} = {got} but the exact figure is {w_} (chi={chi} >= largest bond {boundary})")
+                    continue
+            if which in ("write", "max_size", "peak_size", "width"):
+                rep.mon("estimate_methods_monotone")
+                w_ = figure_value(figs_u, which, factor, base)
+                if got > w_ and not close(got, w_):
+                    fail("estimate_method_monotone", "methods", dict(det, got=got, want=w_),
+                         f"{called} = {got} exceeds the uncapped value {w_}")
+
+    # ---- 2. the objectives: what they write into a trial ---------------------------------------
+    for oi, spec in enumerate(case.get("objectives", ())):
+        chi, late, factor = spec_expect(spec, pristine)
+        det = {"okind": "surface_order", "late": late, "chi": chi, "field": f"objective#{oi}"}
+        try:
+            b = boundary_of("surface_order", late)
+            if b is None:
+                continue
+            boundary = b[0]
+            obj = make_objective(spec)
+            from cotengra.scoring import get_score_fn
+
+            fn = get_score_fn(obj)
+            trial = {"tree": tree}
+            cr = fn(trial)
+            cr2 = tree.get_score(obj)
+            figs = stats(chi, "surface_order", late)
+        except Exception as e:
+            fail("objective_raises", "objectives", dict(det, got=repr(e)),
+                 f"objective {spec} raised {type(e).__name__}: {e} | {traceback.format_exc()[-400:]}")
+            continue
+        rep.mon("objective_trial_figures")
+        rep.count("objective", f"{spec['name']}{'-chi' if spec['chi'] is not None else ''}:{spec['how']}:{'late' if late else 'early'}")
+        bad = None
+        for f in ("flops", "write"):
+            if trial.get(f) != figs[f]:
+                bad = (f, trial.get(f), figs[f])
+        if trial.get("size") not in [figs[f] for f in SIZE_FIELD[spec["name"]]]:
+            bad = ("size", trial.get("size"), {f: figs[f] for f in SIZE_FIELD[spec["name"]]})
+        if bad:
+            fail("objective_trial_figures", "objectives", dict(det, got=bad[1], want=bad[2]),
+                 f"objective {spec}: trial[{bad[0]!r}] = {bad[1]} but compressed_contract_stats(chi={chi}, "
+                 f"compress_late={late}) gives {bad[2]}")
+            continue
+        if not close(cr, cr2):
+            fail("objective_trial_figures", "objectives", dict(det, got=cr2, want=cr),
+                 f"objective {spec}: tree.get_score(objective) = {cr2} but objective({{'tree': tree}}) = {cr}")
+            continue
+        if chi >= boundary:
+            rep.mon("objective_trial_exact")
+            for f in ("flops", "write"):
+                if trial[f] != want[f]:
+                    fail("objective_trial_exact", "objectives", dict(det, got=trial[f], want=want[f]),
+                         f"objective {spec}: trial[{f!r}] = {trial[f]} but the exact figure is {want[f]} "
+                         f"(chi={chi} >= largest bond {boundary})")
+                    break
+            else:
+                if SIZE_FIELD[spec["name"]] == ("max_size",) and trial["size"] != want["max_size"]:
+                    fail("objective_trial_exact", "objectives", dict(det, got=trial["size"], want=want["max_size"]),
+                         f"objective {spec}: trial['size'] = {trial['size']} but the exact largest tensor is {want['max_size']}")
+
+    # ---- 3. the trackers the path optimisers work with -----------------------------------------
+    tr_case = case.get("tracker")
+    if tr_case and compressed and N >= 3:
+        out.extend(tracker_part(rep, case, tr_case, net, pristine, tree, want, boundary_of, stats))
+
+    if register:
+        key = ("api", pristine.key(), tuple(ssa), case["cls"], repr(case.get("tree_objective")), repr(case.get("combos")))
+        rep.case(key, N >= 4 and n_multi_any > 0, pristine.cls,
+                 sample={"eq": pristine.eq(), "sizes": pristine.size_dict, "ssa": ssa, "cls": case["cls"],
+                         "tree_objective": case.get("tree_objective"), "combos": case.get("combos")})
+        rep.count("tree_source", case.get("source", "?"))
+        rep.count("api_tree_objective", "none" if case.get("tree_objective") is None else
+                  case["tree_objective"]["name"] + ":" + case.get("objective_via", ""))
+    return out
+
+
+def parse_describe(s):
+    import re
+
+    return {k: float(v) for k, v in re.findall(r"([FCSP])=(-?[0-9.]+)", s)}
+
+
+def tracker_part(rep, case, tr_case, net, pristine, tree, want, boundary_of, stats):
+    """WindowedOptimizer(...).tracker for the tree's own path (= its surface order)."""
+    import math
+
+    from cotengra.pathfinders.path_compressed import WindowedOptimizer
+
+    out = []
+    spec = tr_case["spec"]
+    ssa = [tuple(s) for s in case["ssa"]]
+    chi, late, factor = spec_expect(spec, pristine)
+    oseed = case["order_seed"]
+
+    def fail(kind, det, msg):
+        d = {"part": "tracker", "order": {"kind": "surface_order", "seed": oseed}, "compress_late": late, "chi": det.get("chi", chi),
+             "field": det.get("field"), "got": det.get("got"), "want": det.get("want")}
+        out.append((kind, d, msg))
+
+    b = boundary_of("surface_order", late)
+    if b is None:
+        return out
+    boundary = b[0]
+    args = (net.inputs, net.output, dict(net.size_dict))
+
+    def tracker_for(c):
+        sp = dict(spec, chi=c)
+        wo = WindowedOptimizer(*args, minimize=make_objective(sp), ssa_path=ssa, seed=0)
+        return wo, wo.tracker
+
+    def principal(figs):
+        p = PRINCIPAL[spec["name"]]
+        return figs["flops"] + factor * figs["write"] if p == "combo" else figs[p]
+
+    try:
+        wo, tr = tracker_for(spec["chi"])
+        got = figs_of(tr)
+        figs = stats(chi, "surface_order", late)
+        desc = tr.describe()
+        score = tr.score
+    except Exception as e:
+        fail("tracker_raises", {"field": "raises", "got": repr(e)},
+             f"WindowedOptimizer(minimize={spec}).tracker raised {type(e).__name__}: {e} | {traceback.format_exc()[-400:]}")
+        return out
+    rep.mon("tracker_vs_stats")
+    rep.count("tracker_objective", f"{spec['name']}{'-chi' if spec['chi'] is not None else ''}:{'late' if late else 'early'}")
+    uncapped = chi >= boundary
+    # (flops at a truncating chi: the QR estimate is outside the statement, and the two routes label the
+    #  tensors differently - see FINDINGS_widen-b.md O2 - so flops is compared only when nothing is truncated)
+    for f in ("max_size", "peak_size", "write") + (("flops",) if uncapped else ()):
+        if got[f] != figs[f]:
+            fail("tracker_vs_stats", {"field": f, "got": got[f], "want": figs[f]},
+                 f"tracker of objective {spec} along the tree's path: {f} = {got[f]} but compressed_contract_stats"
+                 f"(chi={chi}, 'surface_order', compress_late={late}) gives {figs[f]}")
+            return out
+    if uncapped:
+        rep.mon("tracker_exact")
+        for f in ("flops", "max_size", "write"):
+            if got[f] != want[f]:
+                fail("tracker_exact", {"field": f, "got": got[f], "want": want[f]},
+                     f"tracker of objective {spec}: {f} = {got[f]} but the exact figure is {want[f]} (chi={chi} >= largest bond {boundary})")
+                return out
+    # describe(): 'F=log10(flops) C=log10(flops + factor*write) S=log2(max_size) P=log2(peak_size)', 2 decimals
+    d = parse_describe(desc)
+    rep.mon("tracker_describe")
+    expect = {"S": math.log2(max(1, figs["max_size"])), "P": math.log2(max(1, figs["peak_size"]))}
+    if uncapped:
+        expect["F"] = math.log10(max(1, want["flops"]))
+        expect["C"] = math.log10(max(1, want["flops"] + factor * want["write"]))
+    for k, v in expect.items():
+        if k not in d or abs(d[k] - v) > 0.005 + 1e-9:
+            fail("tracker_describe", {"field": "describe:" + k, "got": desc, "want": v},
+                 f"tracker.describe() = {desc!r} but {k} should read {v:.2f} (objective {spec}, figures {figs})")
+            return out
+    # score: with the secondary weight switched off it may depend on the objective's own figure only, and
+    # must grow with it (no formula is assumed).  Pairs come from the same path at different chi.
+    if spec.get("sw0") or spec["name"] == "combo-compressed":
+        pairs = [(principal(got), score, chi)]
+        try:
+            for c in (HUGE, 1, 2, 4, 16):
+                if c == chi:
+                    continue
+                _, t2 = tracker_for(c)
+                pairs.append((principal(figs_of(t2)), t2.score, c))
+        except Exception as e:
+            fail("tracker_raises", {"field": "raises", "got": repr(e)}, f"tracker of {spec} at another chi raised {type(e).__name__}: {e}")
+            return out
+        rep.mon("tracker_score_order")
+        msg = order_violation(pairs)
+        if msg:
+            fail("tracker_score_order", {"field": "score", "got": [list(p) for p in pairs], "want": None},
+                 f"tracker.score of objective {spec} does not order by its figure: {msg}")
+            return out
+    # after refine / simulated_anneal, uncapped: the tracker must describe the path the optimiser now holds
+    rf = tr_case.get("refine")
+    if rf:
+        sp = dict(spec, chi=HUGE)
+        try:
+            with time_limit(OP_LIMIT):
+                wo = WindowedOptimizer(*args, minimize=make_objective(sp), ssa_path=ssa, seed=rf["seed"])
+                if rf["kind"] == "refine":
+                    wo.refine(window_size=max(2, min(rf["window_size"], pristine.N)), max_iterations=rf["max_iterations"],
+                              order_only=rf["order_only"], max_window_tries=rf["max_window_tries"],
+                              score_temperature=rf["score_temperature"])
+                else:
+                    wo.simulated_anneal(tsteps=rf["tsteps"], numiter=rf["numiter"], select=rf["select"])
+                ssa2 = [tuple(p) for p in wo.get_ssa_path()]
+                got2 = figs_of(wo.tracker)
+        except OpTimeout as e:
+            rep.inconclusive_case(f"api: {rf['kind']}: {e}")
+            return out
+        except Exception as e:
+            # whether the optimiser returns at all is monitored by compressed_finder_tree (windowed / anneal)
+            rep.count("excluded", f"api: WindowedOptimizer.{rf['kind']} raised {type(e).__name__}")
+            return out
+        if ref.check_ssa_path(pristine.N, ssa2) or any(len(p) != 2 for p in ssa2):
+            rep.count("excluded", f"api: WindowedOptimizer.{rf['kind']} left an unusable path")
+            return out
+        _, want2, _ = exact_figures(pristine, ssa2)
+        rep.mon("refined_tracker_exact")
+        rep.count("refined_tracker", f"{rf['kind']}:{'changed' if ssa2 != ssa else 'same'}")
+        for f in ("flops", "max_size", "write"):
+            if got2[f] != want2[f]:
+                fail("refined_tracker_exact", {"chi": HUGE, "field": f, "got": got2[f], "want": want2[f]},
+                     f"after {rf} (objective {sp}, nothing truncated) the optimiser's tracker says {f} = {got2[f]} but "
+                     f"the exact figure of the path it now holds {ssa2} is {want2[f]}")
+                return out
+        try:
+            from cotengra.core import ContractionTreeCompressed
+
+            t2 = ContractionTreeCompressed.from_path(*args, ssa_path=ssa2)
+            peak2 = t2.compressed_contract_stats(chi=HUGE, order="surface_order", compress_late=late).peak_size
+        except Exception as e:
+            rep.inconclusive_case(f"api: could not rebuild the refined path: {e!r}")
+            return out
+        if got2["peak_size"] != peak2:
+            fail("refined_tracker_exact", {"chi": HUGE, "field": "peak_size", "got": got2["peak_size"], "want": peak2},
+                 f"after {rf} (objective {sp}) the optimiser's tracker says peak_size = {got2['peak_size']} but "
+                 f"compressed_contract_stats of the path it now holds {ssa2} gives {peak2}")
+    return out
+
+
+def order_violation(pairs):
+    """pairs of (figure, score, label): None if score is a strictly increasing function of figure"""
+    ps = sorted(pairs, key=lambda p: (p[0], p[1]))
+    for (f1, s1, l1), (f2, s2, l2) in zip(ps, ps[1:]):
+        if f1 == f2 and not close(float(s1), float(s2), 1e-12):
+            return f"figure {f1} scores {s1} at chi={l1} but {s2} at chi={l2}"
+        if f1 < f2 and not s1 < s2:
+            return f"figure {f1} (chi={l1}) scores {s1}, the larger figure {f2} (chi={l2}) scores {s2}"
+    return None
+
+
+def run_api_case(rep, case):
+    res = api_case(rep, case)
+    net = gen.Net.from_json(case["net"])
+    seen = set()
+    for kind, det, msg in res:
+        k = (kind, det.get("part"))
+        if k in seen:
+            continue
+        seen.add(k)
+        w = dict(case)
+        w.update(det)
+        w["what"] = "api"
+        rep.violation(kind, w, f"{net.eq()} sizes={net.size_dict} ssa={case['ssa']} cls={case['cls']} "
+                               f"tree_objective={case.get('tree_objective')} via {case.get('objective_via')}: {msg}")
+    return not res
+
+
+# ------------------------- hyper-optimiser with reconf_opts ----------------------------------- #
+
+
+def gen_hyper2_case(rng, cs, tier):
+    net = gen_net(rng, 4, budget(tier, 12, 14))
+    n = net.N
+    spec = gen_objective_spec(rng)
+    p = {
+        "methods": sorted(rng.sample(["greedy-compressed", "greedy-span", "greedy-span-max", "kahypar-agglom"], rng.randint(1, 2))),
+        "objective": spec,
+        "seed": rng.randrange(10**6),
+        "max_repeats": rng.randint(2, 4),
+    }
+    # the cap reaches the optimiser either inside the objective or as its own ``chi=`` argument (strings only)
+    p["chi_arg"] = spec["how"] == "string" and spec["chi"] is not None and rng.random() < 0.6
+    if rng.random() < 0.8:
+        ro = {"window_size": rng.randint(2, n), "max_iterations": rng.randint(1, 3), "order_only": rng.random() < 0.4,
+              "max_window_tries": rng.choice([5, 50, 300]), "score_temperature": rng.choice([0.0, 0.01, 0.5]),
+              "seed": rng.randrange(10**6)}
+        p["reconf_opts"] = ro
+    else:
+        p["reconf_opts"] = None
+    return {"what": "finder2", "method": "hyper", "net": net.to_json(), "params": p, "case_seed": cs}
+
+
+def run_hyper2_case(rep, case, follow_up=True):
+    import cotengra as ctg
+
+    net = gen.Net.from_json(case["net"])
+    pristine = gen.Net.from_json(case["net"])
+    p = case["params"]
+    spec = p["objective"]
+    label = f"{net.eq()} sizes={net.size_dict} HyperCompressedOptimizer {p}"
+    rep.count("finder", "hyper+reconf" if p["reconf_opts"] else "hyper+figures")
+    if p["chi_arg"]:
+        minimize, chi_kw = spec["name"], spec["chi"]
+    else:
+        minimize, chi_kw = make_objective(spec), None
+    try:
+        with time_limit(OP_LIMIT):
+            opt = ctg.HyperCompressedOptimizer(
+                chi=chi_kw, methods=p["methods"], minimize=minimize, max_repeats=p["max_repeats"], parallel=False,
+                seed=p["seed"], on_trial_error="raise", reconf_opts=p["reconf_opts"],
+            )
+            tree = opt.search(net.inputs, net.output, dict(net.size_dict))
+            best = dict(opt.best)
+    except OpTimeout as e:
+        rep.inconclusive_case(f"{label}: {e}")
+        return
+    except Exception as e:
+        rep.mon("compressed_finder_tree")
+        rep.violation("finder_raises", case, f"{label}: {type(e).__name__}: {e} | {traceback.format_exc()[-700:]}")
+        return
+    rep.mon("compressed_finder_tree")
+    if p["reconf_opts"]:
+        rep.mon("hyper_reconf_tree")
+    res = check_finder_tree(net, tree)
+    if res:
+        rep.violation(res[0], case, f"{label}: {res[1]}")
+        return
+    rep.count("finder_ok", "hyper2:" + type(tree).__name__)
+    # the figures of the winning trial are those of the tree that is returned
+    chi, late, _ = spec_expect(spec, pristine)
+    try:
+        figs = figs_of(tree.compressed_contract_stats(chi=chi, order="surface_order", compress_late=late))
+    except Exception as e:
+        rep.violation("stats_raises", case, f"{label}: compressed_contract_stats of the returned tree raised {type(e).__name__}: {e}")
+        return
+    rep.mon("hyper_trial_figures")
+    bad = None
+    for f in ("flops", "write"):
+        if best.get(f) != figs[f]:
+            bad = (f, best.get(f), figs[f])
+    if best.get("size") not in [figs[f] for f in SIZE_FIELD[spec["name"]]]:
+        bad = ("size", best.get("size"), {f: figs[f] for f in SIZE_FIELD[spec["name"]]})
+    if best.get("tree") is not tree:
+        bad = ("tree", "another object", "the returned tree")
+    if bad:
+        rep.violation("hyper_trial_figures", dict(case, field=bad[0], got=bad[1], want=bad[2]),
+                      f"{label}: the best trial reports {bad[0]} = {bad[1]} but the tree it returns has {bad[2]} "
+                      f"(compressed_contract_stats(chi={chi}, 'surface_order', compress_late={late}) = {figs})")
+        return
+    if follow_up:
+        ssa = [tuple(s) for s in tree.get_ssa_path()]
+        run_stats_case(rep, {
+            "net": case["net"], "ssa": ssa, "cls": "compressed", "order_seed": 11,
+            "source": "finder:hyper2", "orders": ("surface_order", "rand"),
+        })
+
+
+# ------------------------- histories with compressed_reconfigure ------------------------------ #
+
+
+def gen_history2_case(rng, cs, tier):
+    case = gen_stats_case(rng, cs, tier, small=False)
+    case["what"] = "history"
+    case["source"] = "history2:" + case["source"]
+    orders = list(ORDERS) if rng.random() < 0.3 else ["dfs", "surface_order"]
+    case["orders"] = orders
+    case["first_orders"] = list(orders) if rng.random() < 0.6 else sorted(rng.sample(orders, rng.randint(1, len(orders) - 1)))
+    n = len(case["net"]["inputs"])
+    steps = []
+    for _ in range(rng.randint(1, 2)):
+        if steps and rng.random() < 0.35 or (not steps and rng.random() < 0.2):
+            steps.append({
+                "inplace": rng.random() < 0.65, "subtree_size": rng.choice([3, 4, 5, 6]), "maxiter": rng.choice([1, 2]),
+                "select": rng.choice(["min", "random", "max"]), "subtree_search": rng.choice(["bfs", "dfs", "random"]),
+                "minimize": rng.choice(HIST_MINIMIZE), "seed": rng.randrange(10**6),
+            })
+            continue
+        # objectives without an explicit chi (chi='auto', also the method's own default minimize=None) are part of
+        # the workload since the repair of F1 (FINDINGS_widen-b.md; fix 24b738c in /repo)
+        # (minimize=None means the tree's own default objective: only a ContractionTreeCompressed has a compressed one)
+        spec = None if (case["cls"] == "compressed" and rng.random() < 0.2) else gen_objective_spec(rng)
+        steps.append({
+            "op": "compressed_reconfigure", "objective": spec, "inplace": rng.random() < 0.5, "partial": rng.random() < 0.5,
+            "order_only": rng.random() < 0.4,
+            "max_nodes": rng.choice([5, 50, 300] + (["auto"] if n <= 6 else [])),
+            "exploration_power": rng.choice([0, 0, 0.5, 2]),
+        })
+        if n <= 7 and rng.random() < 0.08:
+            # time-limited instead of node-limited (the seeded start path is always completed first)
+            steps[-1].update(max_nodes="auto", max_time=0.25)
+    if not any(s.get("op") == "compressed_reconfigure" for s in steps):
+        steps[-1:] = [{
+            "op": "compressed_reconfigure", "objective": gen_objective_spec(rng),
+            "inplace": rng.random() < 0.5, "partial": rng.random() < 0.5, "order_only": rng.random() < 0.4,
+            "max_nodes": rng.choice([5, 50, 300]), "exploration_power": rng.choice([0, 0, 0.5, 2]),
+        }]
+    case["steps"] = steps
+    return case
+
+
+def _run_widened(rep, tier, seed, shard, nshards):
+    dl4 = Deadline(budget(tier, 6, 70))
+    for k in range(budget(tier, 400, 6000)):
+        if dl4.expired():
+            break
+        cs = f"{seed}/C20/api/{shard}/{k}"
+        rng = rng_for(cs)
+        run_api_case(rep, gen_api_case(rng, cs, tier))
+    dl5 = Deadline(budget(tier, 5, 60))
+    for k in range(budget(tier, 300, 5000)):
+        if dl5.expired():
+            break
+        cs = f"{seed}/C20/finder2/{shard}/{k}"
+        rng = rng_for(cs)
+        if k % 2 == 0:
+            run_hyper2_case(rep, gen_hyper2_case(rng, cs, tier), follow_up=(k % 4 == 0))
+        else:
+            run_history_case(rep, gen_history2_case(rng, cs, tier))
+
+
 def run_shard(rep, tier, seed, shard, nshards):
     _run_main(rep, tier, seed, shard, nshards)
     # histories: their own (small) budget and seed stream, after the main workload
@@ -804,6 +1692,8 @@ def run_shard(rep, tier, seed, shard, nshards):
         cs = f"{seed}/C20/history/{shard}/{k}"
         rng = rng_for(cs)
         run_history_case(rep, gen_history_case(rng, cs, tier))
+    # widening: reporting methods / objectives / trackers, hyper + reconf_opts, compressed_reconfigure histories
+    _run_widened(rep, tier, seed, shard, nshards)
 
 
 def _run_main(rep, tier, seed, shard, nshards):
@@ -869,6 +1759,19 @@ def replay(rep, v):
     w = v["witness"]
     if w.get("what") == "finder":
         run_finder_case(rep, w, follow_up=False)
+        return
+    if w.get("what") == "finder2":
+        run_hyper2_case(rep, w, follow_up=False)
+        return
+    if w.get("what") == "api":
+        case = {k: w[k] for k in ("net", "ssa", "cls", "order_seed", "tree_objective", "objective_via", "combos",
+                                  "objectives", "tracker") if k in w}
+        case["source"] = w.get("source", "replay")
+        for kind, det, msg in api_case(rep, case, register=False):
+            ww = dict(case)
+            ww.update(det)
+            ww["what"] = "api"
+            rep.violation(kind, ww, msg)
         return
     if w.get("what") == "history":
         case = {k: w[k] for k in ("net", "ssa", "cls", "order_seed", "orders", "first_orders", "steps")}
